@@ -37,8 +37,14 @@ def _scan(res):
                 for n in ast.walk(tree):
                     if isinstance(n, ast.Constant) and isinstance(n.value, str) and 'class ExcelInPython' in n.value:
                         template_lines = set(range(n.lineno, n.end_lineno + 1))
+            hash_lines = set()
+            for fn in ast.walk(tree):
+                if isinstance(fn, ast.FunctionDef) and fn.name == '__hash__':
+                    # defining how an object hashes is not a nondeterminism source by itself (iteration over hashed
+                    # containers is what the scan looks for)
+                    hash_lines |= set(range(fn.lineno, fn.end_lineno + 1))
             for n in ast.walk(tree):
-                if getattr(n, 'lineno', None) in template_lines:
+                if getattr(n, 'lineno', None) in template_lines or getattr(n, 'lineno', None) in hash_lines:
                     continue
                 if isinstance(n, ast.For) or isinstance(n, ast.comprehension):
                     it = n.iter
